@@ -140,7 +140,64 @@ def out_rows(out, feats):
     return [tuple("nan" if isnan(v) else v for v in row) for row in zip(*[out[f].tolist() for f in feats])]
 
 
+def run_newrows(case):
+    """row-wise purity on frames of values NOT all seen at fit: two categorical features sharing their vocabulary, both with a
+    default group; every 2-row frame over the 25 row types must give, row by row, what each row gives alone"""
+    from AutoCarver import BinaryCarver
+    from AutoCarver.discretizers import Discretizer, QualitativeDiscretizer
+
+    n = 24
+    X = pd.DataFrame(
+        {
+            "home": pd.Series(["A"] * 9 + ["B"] * 9 + ["C"] * 4 + ["r1", "r2"], dtype=object),
+            "work": pd.Series((["D", "A", "B"] * 8)[:22] + ["w1", "w2"], dtype=object),
+            "q": pd.Series([float(i % 4) for i in range(n)], dtype=float),
+        }
+    )
+    y = pd.Series([0, 0, 0, 1, 0, 0, 1, 1, 0, 1, 1, 1] * 2)
+    cls = case["cls"]
+    if cls == "Discretizer":
+        obj = Discretizer(["q"], ["home", "work"], 0.1, copy=True)
+    elif cls == "QualitativeDiscretizer":
+        obj = QualitativeDiscretizer(["home", "work"], 0.1, copy=True)
+    else:
+        obj = BinaryCarver(sort_by="cramerv", min_freq=0.1, quantitative_features=["q"], qualitative_features=["home", "work"], max_n_mod=4, copy=True, output_dtype=case["cfg"]["output_dtype"])
+    obj.fit(X, y)
+    res = {"violations": [], "sample": dict(case), "evaluations": 0}
+    feats = [f for f in ("home", "work") if f in obj.features]
+    vals = ["A", "B", "D", "zz", "r1"]
+    rows = [(h, w) for h in vals for w in vals]
+
+    def tr(rs):
+        fr = pd.DataFrame({"home": pd.Series([r[0] for r in rs], dtype=object), "work": pd.Series([r[1] for r in rs], dtype=object), "q": pd.Series([1.0] * len(rs))})
+        try:
+            out = obj.transform(fr)
+            return out_rows(out, feats)
+        except AssertionError:
+            return "reject"
+
+    single = {r: tr([r]) for r in rows}
+    n = len(rows)
+    bad = 0
+    for r1 in rows:
+        for r2 in rows:
+            if single[r1] == "reject" or single[r2] == "reject":
+                continue
+            got = tr([r1, r2])
+            n += 1
+            if got != single[r1] + single[r2]:
+                bad += 1
+                if bad <= 2:
+                    res["violations"].append({"kind": "not-row-wise:new-values", "what": f"{cls}: frame of rows {r1}, {r2} gives {got} but the rows alone give {single[r1]} and {single[r2]}"})
+    res["evaluations"] = res["validated"] = res["transitions"] = n
+    res["outcome"] = f"{cls}:new-values" + (":VIOLATION" if bad else "")
+    res["nontrivial"] = f"{cls}:new-values:{case['cfg']}"
+    return res
+
+
 def run_case(case):
+    if case.get("newrows"):
+        return run_newrows(case)
     cls, cfg, seed = case["cls"], case["cfg"], case.get("seed", 0)
     A, B = frame_A(seed), frame_B(seed)
     y = target(cls)
@@ -256,7 +313,11 @@ def run(tier, seed, rep):
                 use = seqs if not dev else singles[:: 8]
                 for ci in range(0, len(use), chunk):
                     cases.append({"cls": cls, "cfg": cfg, "seed": seed, "dev": dev, "chunk": ci // chunk, "first": ci == 0, "events": use[ci : ci + chunk]})
+    for cls in ("Discretizer", "QualitativeDiscretizer", "BinaryCarver"):
+        for od in ("float", "str") if cls == "BinaryCarver" else ("str",):
+            cases.append({"cls": cls, "cfg": {"dropna": True, "output_dtype": od}, "seed": seed, "newrows": True, "chunk": 0, "events": []})
     rep.rule = (
+        "row-wise purity on unseen values: two categorical features sharing their vocabulary, every ordered pair of the 25 row types; "
         f"E2: for each class (3 carvers, Discretizer, Qualitative-, QuantitativeDiscretizer; copy=True; carvers x dropna x output_dtype, with and "
         f"without dev sample) fitted on a 10-row frame with quantitative / categorical / ordinal / numeric-category features, missing values and "
         f"two non-feature columns: every transform history of length 1 over the event alphabet (all {2**N-1} non-empty row subsets, all 120 "
